@@ -1,1 +1,81 @@
-fn main() { println!("{}", regexml::Regex::xpath("a", "").unwrap().is_match("a")); let _ = regexml::verif_hooks::take_force_progress_cutoffs(); }
+mod ast;
+mod driver;
+mod enumerate;
+mod gen;
+mod known;
+mod oracle_bt;
+mod oracle_lang;
+mod props;
+mod proto;
+mod supervisor;
+mod ucd;
+mod worker;
+mod worker_history;
+
+use driver::Tier;
+
+fn usage() -> ! {
+    eprintln!("usage: verif check <ID> [--tier quick|thorough] [--seed N]\n       verif replay <file>\n       verif probe <dialect> <pattern> <flags> <input> [replacement]");
+    std::process::exit(2)
+}
+
+fn main() {
+    let args: Vec<String> = std::env::args().collect();
+    if args.len() >= 2 && args[1] == "--worker" {
+        worker::worker_main();
+    }
+    if args.len() < 3 {
+        usage();
+    }
+    match args[1].as_str() {
+        "check" => {
+            let id = args[2].clone();
+            let mut tier = match std::env::var("VERIF_TIER").as_deref() {
+                Ok("thorough") => Tier::Thorough,
+                _ => Tier::Quick,
+            };
+            let mut seed: u64 = std::env::var("VERIF_SEED").ok().and_then(|s| s.parse().ok()).unwrap_or(0);
+            let mut i = 3;
+            while i < args.len() {
+                match args[i].as_str() {
+                    "--tier" => {
+                        tier = if args.get(i + 1).map(|s| s.as_str()) == Some("thorough") { Tier::Thorough } else { Tier::Quick };
+                        i += 1;
+                    }
+                    "--seed" => {
+                        seed = args.get(i + 1).and_then(|s| s.parse().ok()).unwrap_or(0);
+                        i += 1;
+                    }
+                    _ => usage(),
+                }
+                i += 1;
+            }
+            std::process::exit(props::dispatch_check(&id, tier, seed));
+        }
+        "replay" => {
+            let text = std::fs::read_to_string(&args[2]).unwrap_or_else(|e| {
+                eprintln!("harness error: {}: {e}", args[2]);
+                std::process::exit(2)
+            });
+            let v: serde_json::Value = serde_json::from_str(&text).unwrap_or_else(|e| {
+                eprintln!("harness error: {}: {e}", args[2]);
+                std::process::exit(2)
+            });
+            let id = v["property"].as_str().unwrap_or("").to_string();
+            std::process::exit(props::dispatch_replay(&id, &args[2]));
+        }
+        "probe" => {
+            if args.len() < 6 {
+                usage();
+            }
+            let d = if args[2] == "xsd" { proto::Dialect::Xsd } else { proto::Dialect::XPath };
+            let mut job = proto::Job::new(d, &args[3], &args[4]);
+            job.inputs = vec![args[5].clone()];
+            job.replacements = vec![args.get(6).cloned().unwrap_or_else(|| "[$0]".to_string())];
+            job.no_opt = std::env::var("NO_OPT").is_ok();
+            let mut w = supervisor::WorkerHandle::new();
+            println!("{:#?}", w.run(&job));
+        }
+        _ => usage(),
+    }
+}
